@@ -183,6 +183,7 @@ end QGen.C09
 
 COND_MAX = 1.0e3          # generators keep cond(A) below this (cond(AᵀA) ≤ 1e6), DESIGN §4-C09
 KNOWN_MIXED = "C09/calc_estimate/mixed-outcome-counts/raises"
+KNOWN_POST = "C09/circuit/qmpt/small-outcome-probability/post-state-validation-raises"
 
 
 # ----------------------------------------------------------------------------- configurations
@@ -592,6 +593,13 @@ def _check_setup(ctx, spec, sched="all"):
         try:
             mse, _ = consistency_check.calc_mse_of_true_estimated(t.obj, qt, est)
         except Exception as e:  # noqa
+            psm = ts.small_branch(S.kind, S.rhos, S.schedules, t) if "the state is not physically correct" in str(e) else None
+            if psm is not None:
+                # the library cannot produce the exact distributions of this physical object (finding D15): the
+                # estimator itself was checked above with the independent Born data
+                ctx.violate(KNOWN_POST, f"{spec} true={t.label}: an outcome of the measurement process has probability {psm:.2e} on a "
+                            f"tester state; generate_prob_dists_sequence (inside the library consistency check) raises `{e}`", rep)
+                continue
             ctx.violate(f"C09/consistency_check/{tag}/raises", f"{type(e).__name__}: {e} on {spec}", rep)
             return
         if not (mse < 1e-10):
